@@ -52,6 +52,26 @@ LEVEL["decided"] += ' (R14.11) what push() registers for each kind of argument (
 STACK_ATTR = "_exit_callbacks"  # re-derived from ExitStack.__init__ on every run (_derive_stack_attr)
 
 
+def _context_helpers(ctx) -> tuple:
+    """Names of the library's plain helpers that only re-link ``__context__`` of exceptions (whatever they are called and
+    wherever they live): what they do is outside the statement, the unwind model does not follow them."""
+    cached = ctx.__dict__.get("_context_helpers")
+    if cached is not None:
+        return cached
+    names = {"_stitch_context"}
+    m = ctx.pkg.module("contextlib")
+    for u in m.units.values():
+        if u.kind != "sync" or u.parent is not None:
+            continue
+        stores = [x for x in own_nodes(u.node) if isinstance(x, ast.Attribute) and isinstance(x.ctx, ast.Store)]
+        rets = [x for x in own_nodes(u.node) if isinstance(x, ast.Return) and x.value is not None]
+        if stores and all(x.attr == "__context__" for x in stores) and not rets \
+                and not any(isinstance(x, (ast.Await, ast.Yield)) for x in own_nodes(u.node)):
+            names.add(u.node.name)
+    ctx.__dict__["_context_helpers"] = tuple(sorted(names))
+    return ctx.__dict__["_context_helpers"]
+
+
 def _derive_stack_attr(ctx) -> str:
     """The attribute holding the registered exits: the field that ExitStack.__init__ binds to an
     empty deque()/list (its name is free)."""
@@ -95,7 +115,7 @@ def r14_9(ctx, end: str) -> None:
         env1 = dict(fields)
         env1.update({me: "SELF", "@conts": {0: ("CB1",)}, "@field": 0, "@trace": ()})
         try:
-            o1 = Machine(cfg_of(u), ops, resolver=make_resolver(ctx, u, ops, skip=("_stitch_context",), coroutines=True)).run(env1)
+            o1 = Machine(cfg_of(u), ops, resolver=make_resolver(ctx, u, ops, skip=_context_helpers(ctx), coroutines=True)).run(env1)
         except AnalysisError:
             o1 = []
         if len(o1) != 1:
@@ -105,7 +125,7 @@ def r14_9(ctx, end: str) -> None:
         env2 = {k: v for k, v in o1[0].env.items() if k.startswith("@f:")}
         env2.update({me: "SELF", "@conts": {0: ("CB2",)}, "@field": 0, "@trace": ()})
         try:
-            o2 = Machine(cfg_of(u), ops, resolver=make_resolver(ctx, u, ops, skip=("_stitch_context",), coroutines=True)).run(env2)
+            o2 = Machine(cfg_of(u), ops, resolver=make_resolver(ctx, u, ops, skip=_context_helpers(ctx), coroutines=True)).run(env2)
         except AnalysisError:
             o2 = []
         ran = bool(o2) and all(any(e[0] == "CB2" for e in oc.env.get("@trace", ())) for oc in o2)
@@ -386,6 +406,11 @@ class _UnwindOps:
 
     def raises(self, node: Node, env):
         ev = AbsEval(self)
+        if node.kind == "call" and isinstance(node.ast.func, ast.Attribute) and node.ast.func.attr in ("pop", "popleft") \
+                and not node.ast.args:
+            recv = ev.eval(node.ast.func.value, env)
+            if self._is_cont(recv) and not self._get(env, recv):
+                return "E_EMPTY"  # (IndexError: pop from an empty deque / list)
         if node.kind == "call":
             # outcome C: the exit fails when it is *called* (a synchronous exit wrapped for awaiting runs then)
             fv = self._callee(node.ast, env)
@@ -417,6 +442,9 @@ class _UnwindOps:
         text = norm(type_ast) if type_ast is not None else "BaseException"
         if text in ("BaseException", ""):
             return True
+        if exc == "E_EMPTY":
+            names = [norm(x).split(".")[-1] for x in (type_ast.elts if isinstance(type_ast, ast.Tuple) else [type_ast])]
+            return any(n_ in ("IndexError", "LookupError", "Exception") for n_ in names)
         return UNKNOWN  # the raised object may be a cancellation (BaseException)
 
     def iter(self, node: Node, env):
@@ -486,7 +514,7 @@ def r14_2(ctx, end: str) -> None:
                        "@conts": {0: stack}, "@field": 0, "@trace": ()}
                 label = f"stack={n} outcomes={''.join(outcomes) or '-'} received={'E0' if received else 'none'}"
                 ops = _UnwindOps(scenario)
-                results = Machine(cfg, ops, resolver=make_resolver(ctx, u, ops, skip=("_stitch_context",), coroutines=True)).run(env)
+                results = Machine(cfg, ops, resolver=make_resolver(ctx, u, ops, skip=_context_helpers(ctx), coroutines=True)).run(env)
                 want_trace, want_exc = reference(n, outcomes, received)
                 if not results:
                     ctx.fail("R14.2", u, "__aexit__", f"[{label}] abstract evaluation produced no outcome")
@@ -554,7 +582,7 @@ def r14_12(ctx, end: str) -> None:
                    "@conts": {0: stack}, "@field": 0, "@trace": ()}
             ops = _UnwindOps(scenario)
             ops.end = end
-            results = Machine(cfg, ops, resolver=make_resolver(ctx, u, ops, skip=("_stitch_context",), coroutines=True)).run(env)
+            results = Machine(cfg, ops, resolver=make_resolver(ctx, u, ops, skip=_context_helpers(ctx), coroutines=True)).run(env)
             want = []
             for k in range(n, 0, -1):
                 want.append((f"CB{k}", t0))
@@ -950,6 +978,82 @@ def _r14_5_factory(ctx, factory, w, reg, arg, fparam) -> None:
     _r14_5_bound_callback(ctx, m, reg, inline_locals(ctx, m, mcfg, reg, arg), reg.ast.args[0])
 
 
+def _callback_object(ctx):
+    """Fourth accepted form: ``callback()`` registers an object of a private library class whose ``__init__`` only stores its
+    arguments and whose coroutine ``__call__(self, exc_type, exc_val, tb)`` is the exit.
+    -> (class info, registering node, constructor call)"""
+    from .common import inline_locals
+    m = _callback_unit(ctx)
+    mcfg = cfg_of(m)
+    for r in mcfg.nodes:
+        if r.kind == "call" and not r.tag and isinstance(r.ast.func, ast.Attribute) \
+                and _is_stack(m, r.ast.func.value) and len(r.ast.args) == 1:
+            e = inline_locals(ctx, m, mcfg, r, r.ast.args[0])
+            if not (isinstance(e, ast.Call) and not e.keywords and not any(isinstance(a, ast.Starred) for a in e.args)):
+                continue
+            res = ctx.pkg.resolve_expr_global(m.module, e.func)
+            info = ctx.pkg.lib_class(res.qual) if res is not None and res.kind == "lib" else None
+            if info is None or not info.name.startswith("_"):
+                continue
+            init, call = info.methods.get("__init__"), info.methods.get("__call__")
+            if init is None or call is None or call.kind != "coroutine" or len(call.param_names()) != 4 \
+                    or len(init.param_names()) != len(e.args) + 1:
+                continue
+            return info, r, e
+    return None
+
+
+def _r14_5_object(ctx, info, reg, cons) -> None:
+    from .lru import enumerate_paths
+    m = _callback_unit(ctx)
+    cbp = m.param_names()[1]
+    va = m.node.args.vararg.arg if m.node.args.vararg else None
+    kw = m.node.args.kwarg.arg if m.node.args.kwarg else None
+    init, call = info.methods["__init__"], info.methods["__call__"]
+    me = init.param_names()[0]
+    stored = {}  # field -> constructor argument expression
+    plain = True
+    for st in init.node.body:
+        if isinstance(st, ast.Expr) and isinstance(st.value, ast.Constant):
+            continue
+        tg = st.targets[0] if isinstance(st, ast.Assign) and len(st.targets) == 1 else st.target if isinstance(st, ast.AnnAssign) else None
+        val = getattr(st, "value", None)
+        if isinstance(tg, ast.Attribute) and norm(tg.value) == me and isinstance(val, ast.Name) and val.id in init.param_names()[1:]:
+            stored[tg.attr] = cons.args[init.param_names()[1:].index(val.id)]
+        else:
+            plain = False
+    ctx.check(plain and len(stored) == len(cons.args), "R14.5", init, "__init__",
+              "the exit object only stores what callback() hands it", witness=str(sorted(stored)))
+    cfg = cfg_of(call)
+    cme = call.param_names()[0]
+
+    def field_arg(e):
+        return stored.get(e.attr) if isinstance(e, ast.Attribute) and norm(e.value) == cme else None
+    for path in enumerate_paths(cfg, cfg.entry, lambda n: n is cfg.exit):
+        nodes = [n for n, _l in path]
+        awaits = [n for n in nodes if n.kind == "await"]
+        ok = False
+        if len(awaits) == 1 and isinstance(awaits[0].info.get("value"), ast.Call):
+            c = awaits[0].info["value"]
+            f = field_arg(c.func)
+            wrapped = isinstance(f, ast.Call) and ctx.pkg.resolve_expr_global(m.module, f.func).qual.endswith("_core.awaitify") \
+                and len(f.args) == 1 and norm(f.args[0]) == cbp
+            stars = [a for a in c.args]
+            ok = wrapped and len(stars) == 1 and isinstance(stars[0], ast.Starred) and norm(field_arg(stars[0].value)) == va \
+                and len(c.keywords) == 1 and c.keywords[0].arg is None and norm(field_arg(c.keywords[0].value)) == kw
+            if not ok and not c.args and not c.keywords and isinstance(f, ast.Call):
+                ok = _binds_callback(ctx, m, f, cbp, va, kw)  # (the arguments were bound before the object was made)
+        ctx.check(bool(ok), "R14.5", call, awaits[0] if awaits else "__call__",
+                  "the (awaitified) callback is awaited exactly once with *args and **kwargs unchanged")
+        rets = [n for n in nodes if n.kind == "return"]
+        val = rets[-1].info.get("value") if rets else None
+        ctx.check(isinstance(val, ast.Constant) and val.value is False, "R14.5", call, rets[-1] if rets else "__call__",
+                  "a callback can never suppress: constant False is returned")
+    others = [x for x in ast.walk(info.node) if isinstance(x, ast.Attribute) and isinstance(x.ctx, (ast.Store, ast.Del))
+              and x.attr in stored and not any(x is y for y in ast.walk(init.node))]
+    ctx.check(not others, "R14.5", info.methods["__call__"], "__call__", "the stored callback and arguments are never re-bound")
+
+
 def r14_7(ctx) -> None:
     """An exit adapter of the stack must let its callback's exception through: no ``return`` / ``break`` out of a
     ``finally`` in contextlib (C06's rule, shared) — `try: await cb() finally: return False` would swallow it."""
@@ -985,6 +1089,10 @@ def r14_5(ctx) -> None:
         fac = _callback_factory(ctx)
         if fac is not None:
             _r14_5_factory(ctx, *fac)
+            return
+        obj = _callback_object(ctx)
+        if obj is not None:
+            _r14_5_object(ctx, *obj)
             return
     if u is None:
         ctx.fail("R14.5", ctx.unit("contextlib.ExitStack.callback"), "callback",
